@@ -63,30 +63,38 @@ Theorem c07_deletes_then_decode : forall osz es ks,
 Proof. exact deletes_then_decode. Qed.
 Print Assumptions c07_deletes_then_decode.
 
-(* Read-only volume served from a sorted index (SortedFileNeedleMap.Delete).  The full
-   statement [sorted_delete_spec] — Delete returns no error, the key then reads as deleted,
-   and the .idx only grows by tombstone records — FAILS on the code as it is (known finding
-   0: the .sdx is opened read-only, and the tombstone is written at offset 0 of the .idx) ... *)
-Theorem c07_sorted_delete_refuted : exists osz es key,
-  ok_osz osz /\ Forall (wf_entry osz) es /\ sorted_keys es /\ ~ sorted_delete_spec osz es key.
-Proof. exact sorted_delete_refuted. Qed.
-Print Assumptions c07_sorted_delete_refuted.
-
-(* ... and holds whenever the key is not live in the sorted index (absent or already
-   deleted): then Delete is a no-op on both files and returns no error. *)
-Theorem c07_sorted_delete_partial : forall osz es key idx ioff off,
+(* Read-only volume served from a sorted index (SortedFileNeedleMap.Delete on a freshly opened
+   map; NewSortedFileNeedleMap repaired: .sdx opened read-write, indexFileOffset = .idx size).
+   FULL, for every sorted index, every key, every .idx content: no error; when the key is live
+   the .sdx becomes the index with exactly that entry tombstoned and the .idx grows by exactly
+   one tombstone record for the key; otherwise both files are unchanged. *)
+Theorem c07_sorted_delete : forall osz es key idx off,
   ok_osz osz -> Forall (wf_entry osz) es -> sorted_keys es ->
-  trig_sorted_delete_live osz (encode osz es) key = false ->
-  sorted_delete osz idx ioff (encode osz es) key off = (ENone, idx, ioff, encode osz es) /\
-  sorted_delete_spec osz es key.
-Proof. exact sorted_delete_partial. Qed.
-Print Assumptions c07_sorted_delete_partial.
+  sorted_delete osz idx (file_size idx) (encode osz es) key off =
+    if is_live key es
+    then (ENone, idx ++ enc_entry osz {| e_key := key; e_off := off; e_size := tombstone |},
+          file_size idx + entry_size osz, encode osz (set_deleted key es))
+    else (ENone, idx, file_size idx, encode osz es).
+Proof. exact sorted_delete_full. Qed.
+Print Assumptions c07_sorted_delete.
 
-(* the witness of finding 0, evaluated: write error, key 1 still live, first .idx record replaced *)
+(* ... so afterwards exactly that key reads as deleted and every other key reads as before *)
+Theorem c07_sorted_delete_reads : forall osz es key idx off k,
+  ok_osz osz -> Forall (wf_entry osz) es -> sorted_keys es ->
+  let '(err, _, _, sdx') := sorted_delete osz idx (file_size idx) (encode osz es) key off in
+  err = ENone /\
+  sorted_get osz sdx' k =
+    (if (k =? key) && is_live key es then option_map (fun v => (fst v, tombstone)) (lookup k es)
+     else lookup k es).
+Proof. exact sorted_delete_reads. Qed.
+Print Assumptions c07_sorted_delete_reads.
+
+(* the witness of the repaired defect, evaluated: no error, key 1 tombstoned in the .sdx,
+   the tombstone record appended after the existing .idx record *)
 Theorem c07_sorted_delete_witness :
-  sorted_delete 4 (encode 4 witness_es) 0 (encode 4 witness_es) 1 3 =
-    (EWrite, enc_entry 4 {| e_key := 1; e_off := 3; e_size := tombstone |}, 16, encode 4 witness_es)
-  /\ sorted_get 4 (encode 4 witness_es) 1 = Some (2, 20%Z).
+  sorted_delete 4 (encode 4 witness_es) (file_size (encode 4 witness_es)) (encode 4 witness_es) 1 3 =
+    (ENone, encode 4 witness_es ++ enc_entry 4 {| e_key := 1; e_off := 3; e_size := tombstone |}, 32,
+     encode 4 [ {| e_key := 1; e_off := 2; e_size := tombstone |} ]).
 Proof. exact sorted_delete_witness. Qed.
 Print Assumptions c07_sorted_delete_witness.
 
@@ -106,8 +114,7 @@ Example c07_example :
   map (fun k => sres_val (find_from_ecx 5 (encode 5 (set_deleted 3 c07_ex_es)) k))
       [1; 2; 3; 4; 4294967301] =
     [Some (10, 100%Z); Some (4294967303, 0%Z); Some (1099511627775, (-1)%Z); None; Some (12, 5%Z)] /\
-  trig_sorted_delete_live 5 (encode 5 c07_ex_es) 7 = false /\
-  trig_sorted_delete_live 5 (encode 5 c07_ex_es) 3 = true.
+  is_live 7 c07_ex_es = false /\ is_live 3 c07_ex_es = true.
 Proof.
   split; [right; reflexivity|]. split; [repeat constructor; vm_compute; congruence|].
   split; [repeat constructor|]. split; [repeat constructor; discriminate|].
